@@ -129,6 +129,46 @@ func TestC13(t *testing.T) {
 			run(d("exact, nil hash"), paths[fn], nil, digest, false, "nohash")
 		}
 	}
+	// ---- histories on ONE SecureConfig (the hash is reset between uses, as a caller that re-uses it must):
+	// a verification result must never outlive the file it was computed for
+	{
+		p := filepath.Join(dir, "reuse.sh")
+		good := script(7)
+		evil := []byte("#!/bin/sh\necho evil >> " + marker + "\necho '1|1|tcp|127.0.0.1:1234'\nexec sleep 5\n")
+		sum := func(b []byte) []byte { h := sha256.New(); h.Write(b); return h.Sum(nil) }
+		type step struct {
+			content []byte
+			sumOf   []byte
+			launch  bool
+		}
+		for hi, hist := range [][]step{
+			{{good, good, true}, {evil, good, false}},                     // verified once, then the file is replaced
+			{{good, good, true}, {good, good, true}},                      // unchanged file verifies again
+			{{evil, good, false}, {good, good, true}},                     // a failed verification does not stick either
+			{{good, good, true}, {good, evil, false}, {good, good, true}}, // the checksum changes in between
+		} {
+			sc := &plugin.SecureConfig{Hash: sha256.New()}
+			for si, st := range hist {
+				os.WriteFile(p, st.content, 0o755)
+				sc.Checksum = sum(st.sumOf)
+				sc.Hash.Reset()
+				os.Remove(marker)
+				c := plugin.NewClient(&plugin.ClientConfig{
+					HandshakeConfig: plugin.HandshakeConfig{MagicCookieKey: "K", MagicCookieValue: "v", ProtocolVersion: 1},
+					Plugins:         map[string]plugin.Plugin{}, Cmd: exec.Command(p), SecureConfig: sc, StartTimeout: 5 * time.Second, Logger: hclog.NewNullLogger(),
+				})
+				_, err := c.Start()
+				c.Kill()
+				_, merr := os.Stat(marker)
+				out.Evaluations++
+				out.Distinct++
+				desc := fmt.Sprintf("reused SecureConfig, history %d step %d (file matches checksum: %v)", hi+1, si+1, st.launch)
+				if (merr == nil) != st.launch {
+					out.Violations = append(out.Violations, enumViolation{Case: desc, Class: "S", Msg: fmt.Sprintf("binary launched=%v, expected %v (Start error: %v) [%s]", merr == nil, st.launch, err, desc)})
+				}
+			}
+		}
+	}
 	out.Samples = []any{"file=minimal hash=sha256 checksum=exact", "file=1KiB hash=md5 checksum=bit 7 flipped", "file=minimal hash=sha1 checksum=prefix of 19 bytes"}
 	emit(out)
 }
